@@ -133,6 +133,7 @@ func (z *StreamLexer) read(pos int) byte {
 	}
 	pos -= z.start
 	z.pos -= z.start
+	z.prevStart -= z.start
 	z.start, z.buf = 0, buf[:d]
 	if pos >= d {
 		return 0
